@@ -25,7 +25,13 @@ CLAIMS['C14'] = dict(text='One inductive step per operation on pre-states built 
              note='Bounded: capacities <= 4 (streams 8), argument lengths <= 3, copy lengths <= 80 bytes. Containers in the scalar build (SIMD builds differ only inside Memory::Copy/SetToZero, checked separately). The quick tier runs one representative per (container, type, operation) group plus a deterministic twelfth of the other variants; thorough runs all 5649.', ref='6/C14')
 CLAIMS['C19'] = dict(text='One inductive step per BigInt operation from an ARBITRARY pre-state satisfying the representation invariant (words symbolic, index symbolic), with symbolic arguments guarded by "the result fits": the invariant is re-established and the value equals a native / unsigned __int128 / word-wise carry-chain reference, no access outside the word array; word sizes 8/16/32/64, widths 32..256 bits. Multiply and Divide are proved over the contract of the double-word helper, and the helper itself (DoubleSize<W,bits>::Multiply/Divide) against native double-width arithmetic: all operands for 8/16/32-bit words, 64-bit Multiply for all operands, 64-bit Divide for each of the 29 divisors the library uses (10^19, 5^0..5^27).',
              note='Bounded per instantiation (5 quick / 7 thorough). An exactness proof of the 64-bit Divide for ARBITRARY divisors is out of reach of every back end (searched for counterexamples with kissat instead); distributivity / long-division identities used to compose the helper proofs are stated assumptions.', ref='6/C19')
-NA = {}
+CLAIMS['C16'] = dict(text='The C14 array harnesses (Array<int>, Array<Tracked>: every public operation incl. growth/relocation, copy/move, merge-by-move, Clear/Reset/Detach, aliasing arguments) re-run with CBMC --memory-leak-check: after one arbitrary operation on a pre-state built through the public API and destruction of every object no allocation is live; CBMC deallocated-object / double-free / invalid-free properties cover use-after-release and foreign releases; the Tracked ledger covers construct/destroy exactly once per element.',
+             note='PARTIAL: containers only (arrays; strings/streams/hash table use-after-free and double-free are covered by the pointer checks of C13/C14). Failed JSON parses with the real Value, malformed templates and tag-cache lifetimes are NOT covered (real container-kind Value and the template driver are beyond reach of CBMC on this image).', ref='6/C16')
+NA = {
+ 'C02': 'needs the template renderer over symbolic templates x value trees: TemplateCore::parse with ONE symbolic template unit or a symbolic truncation length gives no verdict in 300 s; Parse+Render of the concrete 7-unit template {var:a} against a symbolic value tree runs out of memory at 16 GB after 244 s; a fully symbolic 3-unit template: no verdict in 400 s (cbmc 6.11, per-loop bounds, RPO C). Running concrete templates through CBMC would be enumeration of concrete runs, not a solver verdict; not replaced by another technique (DESIGN.md section 8)',
+ 'C17': 'quantifies over renders through the template renderer (same wall as C02: renderer out of reach of the bounded model checker here); the schedule clause would additionally rest on a syntactic no-shared-writes argument, which is not a solver verdict (DESIGN.md section 8)',
+ 'C18': 'Value::GroupBy needs an array of REAL objects; one real object member (HArray<String,Value>) does not reach a verdict in 300 s under any mitigation (per-loop and per-function recursion bounds, pointer-compare folding) because every temporary ~Value explores the mutually recursive destructor group (DESIGN.md sections 2 and 8)',
+}
 def main():
     props = [json.loads(l)['id'] for l in open(os.path.join(ROOT, 'properties.jsonl'))]
     checks = []
